@@ -455,6 +455,7 @@ type c13replay struct {
 	Gen  string `json:"gen,omitempty"`
 	Size int    `json:"size"`
 	Risk bool   `json:"child"`
+	Nest bool   `json:"nested_headers,omitempty"`
 }
 
 type c13state struct {
@@ -657,6 +658,11 @@ func TestVerif_C13(t *testing.T) {
 				s.judge(p.Fn, p.In, p.Gen, p.Size, true, res)
 			} else {
 				res := c13eval(p.Fn, p.In, p.Size)
+				if p.Nest && res.Out != "panic" && res.Out != "crash" && res.Alloc > c13bound(p.In) {
+					r.Violate("allocation amplified by nesting: every nested aggregate header preallocates up to 64 KiB before any element has arrived",
+						fmt.Sprintf("%s on %d bytes of nested headers: %d bytes allocated (bound %d)", c13fnName[p.Fn], len(p.In), res.Alloc, c13bound(p.In)), p)
+					return
+				}
 				s.judge(p.Fn, p.In, "", p.Size, false, &res)
 			}
 			return
@@ -674,7 +680,7 @@ func TestVerif_C13(t *testing.T) {
 		r.Bounds["line_full_alphabet_up_to_depth"] = lineFullDepth
 		r.Bounds["line_tokens_max_for_2^30"] = hugeLineDepth // one level deeper as a chunk header ';2^30'
 		r.Bounds["child_address_space_limit"] = c13asLimit
-		r.Rule = "layer raw: every sequence of <= raw_tokens_max tokens over {17 type bytes, unknown type 'X', digits 0 1 7, lengths -1 -2 minInt64 maxInt64 10^20-1 2^30 65536 ?, CRLF, CR, LF, 'ab'} + EOF; layer line: every sequence of <= line_tokens_max complete header lines {17 type bytes} x {'' 0 1 2 - -0 -1 -2 ? a 65536 2^30 2^62 2^63-1 -2^63 10^20-1} x CRLF (a few with bare LF) and payload pieces (beyond line_full_alphabet_up_to_depth a reduced alphabet {+ : $ * % | ; .} x {'' 0 1 -2 ? 65536 2^62 2^63-1}; quick: {+ $ * % ; .} x {'' 1 -2 ? 65536} and only after prefixes that did not need the child); the 2^30 token (1 GiB allocations are slow even in the child) only at the positions given in bounds; prefixes are extended only while the decoder read past the end of the prefix (and did not already violate); each input through readNextMessage and streamTo with recover, heap bytes allocated during the call measured (runtime/metrics) and required <= 1MiB + 64*len(input); inputs with a >= 8 digit length after a length-carrying type byte run in a child process under RLIMIT_AS 4GiB (a fatal error of the child, confirmed in a fresh child, is a violation); plus deeply nested arrays in the child. non-trivial = input on which a decoder wanted more bytes or that needed the child"
+		r.Rule = "layer raw: every sequence of <= raw_tokens_max tokens over {17 type bytes, unknown type 'X', digits 0 1 7, lengths -1 -2 minInt64 maxInt64 10^20-1 2^30 65536 ?, CRLF, CR, LF, 'ab'} + EOF; layer line: every sequence of <= line_tokens_max complete header lines {17 type bytes} x {'' 0 1 2 - -0 -1 -2 ? a 65536 2^30 2^62 2^63-1 -2^63 10^20-1} x CRLF (a few with bare LF) and payload pieces (beyond line_full_alphabet_up_to_depth a reduced alphabet {+ : $ * % | ; .} x {'' 0 1 -2 ? 65536 2^62 2^63-1}; quick: {+ $ * % ; .} x {'' 1 -2 ? 65536} and only after prefixes that did not need the child); the 2^30 token (1 GiB allocations are slow even in the child) only at the positions given in bounds; prefixes are extended only while the decoder read past the end of the prefix (and did not already violate); each input through readNextMessage and streamTo with recover, heap bytes allocated during the call measured (runtime/metrics) and required <= 1MiB + 64*len(input); inputs with a >= 8 digit length after a length-carrying type byte run in a child process under RLIMIT_AS 4GiB (a fatal error of the child, confirmed in a fresh child, is a violation); plus deeply nested arrays in the child, and 16/64/256 nested aggregate headers that each declare 65536 (or 1365) elements. non-trivial = input on which a decoder wanted more bytes or that needed the child"
 		r.Assume("allocation is measured as the growth of /gc/heap/allocs:bytes around the call (large objects are accounted immediately; small-object accounting may lag by at most a span per size class, far below the 1 MiB slack)")
 		r.Assume("stack memory is not counted as allocation; a stack overflow is reported as a fatal crash")
 		r.Assume("bufio reader sizes 32 (minimum rueidis configures) and 4096; split reads are covered by C12")
@@ -765,6 +771,33 @@ func TestVerif_C13(t *testing.T) {
 					s.judge(fn, nil, j.Gen, 4096, true, res)
 				}
 			}
+		}
+
+		// ---- nested headers with large declared counts (in-process: the depth is far from any stack limit)
+		if r.Mine(0) {
+			var fams []string
+			for _, fr := range []string{"*65536\r\n", "~65536\r\n", ">65536\r\n", "%65536\r\n", "*1365\r\n", "*?\r\n*65536\r\n"} {
+				for _, levels := range []int{16, 64, 256} {
+					in := bytes.Repeat([]byte(fr), levels)
+					fams = append(fams, fmt.Sprintf("%q x %d", fr, levels))
+					for fn := 0; fn < 2; fn++ {
+						res := c13eval(fn, in, 4096)
+						r.Evaluations++
+						r.StateStr("nestbig", fr, strconv.Itoa(levels), strconv.Itoa(fn))
+						r.NonTrivialStr("nestbig", fr, strconv.Itoa(levels), strconv.Itoa(fn))
+						if res.Out != "panic" && res.Out != "crash" && res.Alloc > c13bound(in) {
+							// own signature: the per-header bound holds, the amplification comes from nesting
+							r.Outcome(c13fnName[fn] + ": EXCESSIVE ALLOCATION (nested headers)")
+							r.Violate("allocation amplified by nesting: every nested aggregate header preallocates up to 64 KiB before any element has arrived",
+								fmt.Sprintf("%s on %d nested headers %q + EOF (%d bytes, bufio 4096): %d bytes allocated while decoding (bound 1MiB+64*len = %d); outcome %s %s", c13fnName[fn], levels, fr, len(in), res.Alloc, c13bound(in), res.Out, res.Detail),
+								c13replay{Fn: fn, In: in, Size: 4096, Nest: true})
+							continue
+						}
+						s.judge(fn, in, "", 4096, false, &res)
+					}
+				}
+			}
+			r.Bounds["nested_big_headers"] = fams
 		}
 
 		runRaw()
